@@ -16,7 +16,8 @@ import FV.Proofs.Glb
   |                                           | `ConstRespect` is FRAME's construction of the model, not solver  |
   | `recenter_rigid`, `flip_rigid`,           | nothing — any answer whatsoever                                  |
   | `extract_hard_rigid`                      |                                                                  |
-  | `glbLoop_invariant`, `glbfloor_feasible`  | nothing (the solver is an arbitrary partial function)            |
+  | `glbLoop_invariant`, `glbfloor_feasible`, | nothing (the solver is an arbitrary partial function)            |
+  | `glbfloor_returns_extracted`              |                                                                  |
 
   All statements are over an arbitrary linearly ordered field (exact arithmetic); `Rat`, at which the driver runs
   the same definitions, is one.  IEEE rounding is executed (F stream of the harness), never proved.
@@ -332,25 +333,35 @@ theorem glbLoop_invariant (solve : State α → Option (Answer α)) (mustRefine 
       · rename_i r' hr'
         simp only [Option.some.injEq] at h; subst h
         exact hextract s ans _ hs hr'
-  induction fuel generalizing n s with
-  | zero => simp [glbLoop] at h
-  | succ fuel ih =>
-    unfold glbLoop at h
-    by_cases hc : withinLimit maxIter n = true
-    · rw [if_pos hc] at h
-      by_cases h1 : 1 < n
-      · rw [if_pos h1] at h
-        by_cases hm : mustRefine s.1 = true
-        · rw [if_pos hm] at h
-          cases ho : optimizeStep solve εA thr (refine s.1, s.2) with
-          | none => simp only [ho] at h; exact absurd h (by simp)
-          | some s' => simp only [ho] at h; exact ih _ _ (hopt _ _ (hrefine s hs) ho) h
-        · rw [if_neg hm] at h; simp only [Option.some.injEq] at h; subst h; exact hs
-      · rw [if_neg h1] at h
-        cases ho : optimizeStep solve εA thr s with
-        | none => simp only [ho] at h; exact absurd h (by simp)
-        | some s' => simp only [ho] at h; exact ih _ _ (hopt _ _ hs ho) h
-    · rw [if_neg hc] at h; simp only [Option.some.injEq] at h; subst h; exact hs
+  exact loopG_invariant _ _ _ maxIter P hrefine hopt fuel n s r hs h
+
+/-- **The loop optimises before it may stop.**  With at least one pass allowed (`max_iter` is `None` or `≥ 1`),
+    whatever `glbfloor` returns is the output of `extract_solution` on the cells of some offered allocation — never
+    the initial allocation itself (which need not be feasible: overlapping initial squares over-occupy cells).  So the
+    conclusions of `extract_ratios`, `fixed_kept`, `extract_hard_rigid` apply to the value `glbfloor` returns. -/
+theorem glbfloor_returns_extracted (solve : State α → Option (Answer α)) (mustRefine : List (RectAlloc α) → Bool)
+    (refine : List (RectAlloc α) → List (RectAlloc α)) (εA thr : α) (maxIter : Option Nat) (fuel : Nat)
+    (init r : State α) (hlim : maxIter ≠ some 0)
+    (h : glbfloor solve mustRefine refine εA thr maxIter fuel init = some r) :
+    ∃ (s : State α) (ans : Answer α), solve s = some ans ∧
+      extractSolution ans εA thr s.2 (s.1.map (·.rect)) = .ok r := by
+  have hl : withinLimit maxIter 1 = true := by
+    cases maxIter with
+    | none => rfl
+    | some k =>
+      have : k ≠ 0 := fun hk => hlim (by rw [hk])
+      simp only [withinLimit, decide_eq_true_eq]; omega
+  obtain ⟨s, hs⟩ := loopG_first _ _ _ maxIter fuel init r hl h
+  unfold optimizeStep at hs
+  cases hsol : solve s with
+  | none => simp only [hsol] at hs; exact absurd hs (by simp)
+  | some ans =>
+    simp only [hsol] at hs
+    cases hex : extractSolution ans εA thr s.2 (s.1.map (·.rect)) with
+    | error e => simp only [hex] at hs; exact absurd hs (by simp)
+    | ok r' =>
+      simp only [hex, Option.some.injEq] at hs
+      exact ⟨s, ans, hsol, by rw [hex, hs]⟩
 
 /-- Feasibility of the cells through the whole loop: if the initial allocation's cells are pairwise `R`-related
     and all satisfy `Q` (non-overlapping, inside the die), and `refine` keeps that (the allocation model's
